@@ -457,6 +457,25 @@ func builtinFuncs(e *Env) map[string]string {
 				}
 			}
 		}
+		// the map comes from a helper of the package (builtInFunctions()): read the map that helper returns
+		if c, ok := target.(*ssa.Call); ok {
+			if g := c.Call.StaticCallee(); g != nil && e.P.InModule(g) && len(g.Blocks) > 0 {
+				for _, b := range g.Blocks {
+					if ret, isRet := b.Instrs[len(b.Instrs)-1].(*ssa.Return); isRet && len(ret.Results) == 1 {
+						target, fn = ret.Results[0], g
+					}
+				}
+				if ld, isLd := target.(*ssa.UnOp); isLd {
+					if al, isAl := ld.X.(*ssa.Alloc); isAl {
+						for _, ref := range *al.Referrers() {
+							if st, isSt := ref.(*ssa.Store); isSt && st.Addr == al {
+								target = st.Val
+							}
+						}
+					}
+				}
+			}
+		}
 		if target != nil {
 			for _, b := range fn.Blocks {
 				for _, ins := range b.Instrs {
